@@ -762,6 +762,19 @@ func (e *Exec) dispatch(fv *FuncV, args []Value, cc *ssa.CallCommon, site ssa.Va
 			return r, true, b
 		}
 	}
+	if strings.HasPrefix(name, "(*sync/atomic.Pointer[") {
+		if i := strings.LastIndex(name, ")."); i >= 0 {
+			mname := name[i+2:]
+			if j := strings.Index(mname, "["); j >= 0 {
+				mname = mname[:j]
+			}
+			if ic, ok := atomicPointerMethods[mname]; ok {
+				r, b := ic(e, fv, args, cc)
+				e.noteStub("(*sync/atomic.Pointer[T])." + mname)
+				return r, true, b
+			}
+		}
+	}
 	if r, ok := e.packageStub(fv.Fn, args, cc); ok {
 		return r, true, false
 	}
@@ -857,6 +870,24 @@ func (e *Exec) builtin(name string, args []Value, cc *ssa.CallCommon) Value {
 				dst.Arr.Val.(*ArrayV).E[dst.Off+i] = tmp[i]
 			}
 			return c.BVConst(64, uint64(n))
+		}
+	case "clear":
+		switch x := args[0].(type) {
+		case *MapV:
+			if x.M != nil {
+				e.raceMap(x.M, true)
+				x.M.Entries = nil
+			}
+			return nil
+		case *SliceV:
+			if x.Arr != nil {
+				et := cc.Args[0].Type().Underlying().(*types.Slice).Elem()
+				e.raceElems(x, 0, x.Len, true)
+				for i := 0; i < x.Len; i++ {
+					x.Arr.Val.(*ArrayV).E[x.Off+i] = e.zero(et)
+				}
+			}
+			return nil
 		}
 	case "delete":
 		m := args[0].(*MapV)
